@@ -84,10 +84,40 @@ Example C15_fprintf_is_translation_nonvacuous :
   Forall gany_wf ex_args /\ Forall str_ok ex_args /\
   written (fprintf ex_fmt (map of_gany ex_args) (repeat 0 33)) = Ok (bytes "  -42|ff|ab|true|%|10") /\
   (length ex_fmt + length ex_args + length (bytes "  -42|ff|ab|true|%|10") + 34 < 79)%nat /\
-  out (go_kfmt_Fprintf 79 w0 true ex_fmt ex_args) = "  -42|ff|ab|true|%|10"%string.
+  out (go_kfmt_Fprintf 79 w0 true ex_fmt ex_args) = "  -42|ff|ab|true|%|10"%string /\
+  (* the strong form: the world is the model's Write calls pushed as doWrite events on that writer, the model's buffer *)
+  match fprintf ex_fmt (map of_gany ex_args) (repeat 0 33) with
+  | Ok (cs, buf') => go_kfmt_Fprintf 79 w0 true ex_fmt ex_args = GOk (mk_go_kfmt_world (pushed true cs []) buf' [124], tt)
+  | _ => False end.
 Proof.
   split; [reflexivity|]. split; [vm_compute; reflexivity|]. split; [vm_compute; reflexivity|].
   split; [unfold ex_args; repeat (apply Forall_cons; [vm_compute; first [exact I|reflexivity]|]); apply Forall_nil|].
   split; [unfold ex_args; repeat (apply Forall_cons; [vm_compute; first [exact I|reflexivity]|]); apply Forall_nil|].
-  split; [vm_compute; reflexivity|]. split; [vm_compute; lia|]. vm_compute. reflexivity.
+  split; [vm_compute; reflexivity|]. split; [vm_compute; lia|]. split; vm_compute; reflexivity.
+Qed.
+
+(** audit: C15_fprintf_translation_renders at the same call, the format given as PIECES (the property's quantifier):
+    all six hypotheses together, the fuel bound with the specification's [render], and the theorem's conclusion *)
+Definition ex_pieces : list FmtSpec.piece :=
+  [FmtSpec.Verb [5] FmtSpec.Vd; FmtSpec.Lit [124]; FmtSpec.Verb [] FmtSpec.Vx; FmtSpec.Lit [124];
+   FmtSpec.Verb [] FmtSpec.Vs; FmtSpec.Lit [124]; FmtSpec.Verb [] FmtSpec.Vt; FmtSpec.Lit [124];
+   FmtSpec.Percent; FmtSpec.Lit [124]; FmtSpec.Verb [] FmtSpec.Vo].
+Example C15_fprintf_translation_renders_real_input :
+  FmtSpec.encode ex_pieces = ex_fmt /\
+  FmtSpec.render ex_pieces (map of_gany ex_args) = bytes "  -42|ff|ab|true|%|10" /\
+  exists cs buf' y,
+    fprintf (FmtSpec.encode ex_pieces) (map of_gany ex_args) (repeat 0 33) = Ok (cs, buf') /\
+    List.concat cs = FmtSpec.render ex_pieces (map of_gany ex_args) /\
+    go_kfmt_Fprintf 79 w0 true (FmtSpec.encode ex_pieces) ex_args
+      = GOk (mk_go_kfmt_world (pushed true cs []) buf' [y], tt).
+Proof.
+  split; [vm_compute; reflexivity|]. split; [vm_compute; reflexivity|].
+  destruct (C15_fprintf_translation_renders true [] (repeat 0 33) 32 ex_pieces ex_args) as [cs [buf' [E [R T]]]].
+  - reflexivity.
+  - vm_compute; reflexivity.
+  - vm_compute; reflexivity.
+  - unfold ex_pieces. repeat (apply Forall_cons; [vm_compute; first [exact I | intuition discriminate | (split; [repeat constructor | reflexivity])]|]). apply Forall_nil.
+  - unfold ex_args; repeat (apply Forall_cons; [vm_compute; first [exact I|reflexivity]|]); apply Forall_nil.
+  - unfold ex_args; repeat (apply Forall_cons; [vm_compute; first [exact I|reflexivity]|]); apply Forall_nil.
+  - destruct (T 79%nat ltac:(vm_compute; lia)) as [y Hy]. exists cs, buf', y. split; [exact E|]. split; [exact R|exact Hy].
 Qed.
